@@ -117,10 +117,16 @@ type workload struct {
 //   - "sentinel": concurrent writers on one key are allowed, but no partial DeleteRange can
 //     empty an entry (every written slice carries a timestamp no partial range covers);
 //   - "keymutex": any DeleteRange, but the harness serialises the writers of one key.
-func genWorkload(t *rapid.T) *workload {
+//
+// Both restrictions exist only while that finding is open (restrict); otherwise the profile is
+// "free": concurrent writers on one key AND deletes that empty entries.
+func genWorkload(t *rapid.T, restrict bool) *workload {
 	w := &workload{}
 	w.Exact = rapid.Bool().Draw(t, "uniqueTs")
 	w.Profile = rapid.SampledFrom([]string{"sentinel", "keymutex"}).Draw(t, "profile")
+	if !restrict {
+		w.Profile = "free"
+	}
 	w.Lockstep = rapid.IntRange(0, 3).Draw(t, "lockstep") != 0
 	if rapid.IntRange(0, 3).Draw(t, "limited") == 0 {
 		w.Limit = uint64(rapid.IntRange(80, 500).Draw(t, "limit"))
@@ -722,7 +728,7 @@ func TestPropCacheConcurrent(t *testing.T) {
 	openInit := ev.KnownOpen("C09", knownInitRace)
 	strict := mkModel(relax{})
 	rec.Check(t, 5000, 100000, func(t *rapid.T) {
-		w := genWorkload(t)
+		w := genWorkload(t, openDelete)
 		w.PreInit = openInit
 		if openInit {
 			rec.ExcludedKnown(knownInitRace) // excluded by construction: the store is allocated before the goroutines start
